@@ -20,6 +20,9 @@ CHECKS = {
  "C08": dict(cat="model_checking", tech="stateless exhaustive schedule enumeration on the real Reader through merge-order hook H1: all k! x z! completion orders of the object-stream blocks and zero-length list per file; differential against the sequential (no-default-features) build",
    text="For every generated file (up to 4/6 object-stream containers with duplicated object numbers, listed or unlisted in the cross-reference data, deferred-length and empty streams) every completion order of the parallel phase is forced through the hook and the canonical digest of the loaded document must be identical for all orders and equal to the sequential build's.",
    note="rests on the argument (DESIGN §3) that the two mutex-protected appends are the only schedule-visible actions; free-running loads on pools of 1..16 threads are supplementary sampling and labelled so"),
+ "C15": dict(cat="exploration", tech="bounded-exhaustive enumeration of ToUnicode CMaps: all sequences of <=2/<=3 definitions from a 170-entry menu x deviation-bounded rendering choices (white-space, line ends, sectioning, hex case) x all single codes and ordered code pairs, against reference 'last definition wins' semantics",
+   text="Every CMap of the stated space is rendered to real CMap text, parsed by lopdf through get_font_encoding and decoded with Document::decode_text for every mapped code and every ordered pair of codes; the text must equal the reference semantics (last covering definition wins, range offset added to the last UTF-16 unit, arrays indexed, surrogates combined).",
+   note="trusts harness/src/refcmap.rs; 'liberal' PostScript spellings that lopdf's grammar rejects are counted separately and only a mis-decode (not a rejection) would be a violation; code lengths 3-4 spot-checked"),
  "C18": dict(cat="exploration", tech="exhaustive enumeration of all 2,879 minute-precision UTC offsets x instant menu x backends x ordered backend pairs against an integer-arithmetic reference formatter; one child process per offset for chrono Local (TZ)",
    text="All offsets -23:59..+23:59 x 12 instants x 5 writer types x 3 reader types: the produced string must equal the reference formatting, all backends agree, parsing returns the same instant (and offset where kept); the specification's short forms must parse.",
    note="trusts harness/src/refdate.rs (self-checked against published epoch anchors and a day-by-day walk); instants are a menu, offsets exhaustive"),
